@@ -320,6 +320,20 @@ pub fn run(prop: &str, thorough: bool, seed: u64, rep: &mut Report) {
             for doc in [format!("[\"{}\",true]", c), format!("{{\"{}k\": [\"a{}\"] }}", c, c), format!("\"{}\" x", c)] { check_bytes(prop, doc.as_bytes(), rep); }
         }
     }
+    if matches!(prop, "C01" | "C02" | "C05" | "C07") {
+        // one raw character of every bit length (2^k - 1 and 2^k for k = 7..20, both sides of the surrogate
+        // range, the last scalar) in front of the places where spans and error offsets are taken: byte
+        // positions must advance by the character's UTF-8 length, whatever way that length is obtained
+        rep.checks.push(format!("{}: a raw character of every bit length before a span boundary / an error (offsets advance by its UTF-8 length)", prop));
+        let mut cps: Vec<u32> = vec![0xD7FF, 0xE000, 0xFFFD, 0x10FFFF];
+        for k in 7..=20u32 { cps.push((1 << k) - 1); cps.push(1 << k); }
+        for cp in cps {
+            let c = match char::from_u32(cp) { Some(c) => c, None => continue };
+            for doc in [format!("[\"{}\",true]", c), format!("{{\"{}k\": [\"a{}\"] }}", c, c), format!("\"{}\" x", c), format!("[\"{}\" 1]", c), format!("\"{}{}\"", c, '\u{1}'), format!("[1, {}]", c), format!("{{\"a{}\":1,\"b\" 2}}", c), format!("\"{}\\uD800x\"", c)] {
+                check_text(prop, &doc, rep);
+            }
+        }
+    }
     if prop == "C02" {
         // objects with duplicated keys: every assignment of up to N members to the keys a/b/c,
         // values numbered in source order; lookups must be the linear scan (check_lookups)
